@@ -433,6 +433,7 @@ func scenBatchWriter(t *tr.W, r *rand.Rand) {
 func Run(t *tr.W, thorough bool) {
 	r := tr.Rng(17)
 	rcf := tr.Rng(1717) // own stream: the cfheaders-sync scenario does not shift the draws of the others
+	rmid := tr.Rng(171717)
 	n := 12 * tr.EnvInt("VERIF_BUDGET", 1)
 	if thorough {
 		n *= 4
@@ -452,6 +453,9 @@ func Run(t *tr.W, thorough bool) {
 		scenRescan(t, r, false)
 		if i%3 == 0 {
 			scenReorgStop(t, r) // opens real stores: a few per run
+			// Stop between two iterations of a deep reorganisation roll-back inside the real block handler,
+			// then reopen the directory (C01 oracle on the reopened stores); a stream of its own
+			scenReorgStopMidRollback(t, rmid, i/3+rmid.Intn(8))
 		}
 		if i%6 == 0 {
 			// writes >= 16000 headers to real stores: two per quick run, one with each kind of reader
